@@ -16,15 +16,21 @@ META = dict(
                 'limits -> 413; handler / filter set-up / on_error counters): for every byte string and segmentation each reader terminates '
                 'without fuel exhaustion in exactly one terminal observation; handler, on_error are called at most once per request and never '
                 'both; error outcomes imply zero handler calls; negative and oversized declared lengths are rejected with 400 / 413; every '
-                'modelled buffer index of HTTP and FastCGI parsing is in bounds; the SCGI key/value scan is proved in bounds exactly when the '
-                'header block is NUL terminated and REFUTED otherwise (replayed on the real code: heap over-read, known finding). '
+                'modelled buffer index of the HTTP, SCGI and FastCGI readers is in bounds for every input (no input reaches an unsafe index of '
+                'the model: a SCGI header block whose last string is not NUL-terminated is a protocol violation before the strlen scan, an empty '
+                'FastCGI GET_VALUES body returns before front() is taken and is answered by an empty GET_VALUES_RESULT); FastCGI records of '
+                'another version close the connection, unknown record types are skipped, unknown roles are answered and the connection goes on; '
+                'for streams of at most 16384 bytes the outcome of an HTTP connection is independent of the segmentation into reads. '
                 'The model is tied to the code by running the extracted model and the real service (sanitizer build) on the same streams and '
                 'comparing reply classes and application callback counters; an independent oracle checks survival, absence of sanitizer '
-                'reports, probe answers and at-most-once delivery on the implementation output alone.'),
+                'reports, probe answers, at-most-once delivery and the repaired behaviour (unterminated SCGI block refused, content-less '
+                'GET_VALUES answered) on the implementation output alone.'),
     level_note=('Trusted: Coq kernel; hand transcription of the readers (tied by correspondence; separator/token characters by cxx2v); '
                 'ExtrOcamlBasic extraction; harness/C02_service.cpp (accept/close interposition, echo and upload applications); kernel socket '
                 'behaviour; ASan/UBSan as the detector of memory-unsafe operations in the compiled code (explored inputs only). Not modelled: '
-                'multipart parser (C12), response formatting (C03), allocation failure, timeouts/watchdog.'),
+                'multipart parser (C12), response formatting (C03), allocation failure, timeouts/watchdog, socket errors (a peer reset racing '
+                'with http::process_request is exercised by about 320 abortive-close cases per quick run and judged by the oracle only: '
+                'timing dependent, detected with high probability, not with certainty).'),
 )
 
 GEN = {
@@ -235,9 +241,11 @@ def canon_model(case, out):
     return ' '.join(items) + ' | ' + right
 
 
-# ------------------------------------------------------------------------------------------- known-finding input classes
+# ------------------------------------------------------------------------------------------- input classes of repaired defects
+# (computed from the bytes sent only - independent of the model - so that the oracle can demand the repaired behaviour)
 def scgi_unterminated(data):
-    """independent of the model: SCGI netstring accepted by on_first_read whose header block ends in a string without NUL"""
+    """SCGI netstring accepted by on_first_read, complete, ending in ',', whose non-empty header block does not end in NUL
+    (repair 236058f: must be a protocol violation; before, strlen ran past buffer_)"""
     if len(data) < 16 or b':' not in data[:16]:
         return False
     sep = data.index(b':')
@@ -256,18 +264,31 @@ def scgi_unterminated(data):
     return len(block) > 0 and not block.endswith(b'\0')
 
 
-def fcgi_empty_getvalues_first(data):
+def fcgi_mgmt_prefix(data):
+    """replies that must open the server's output for the management prefix of a FastCGI stream: version-1 records in
+    front of the first BEGIN_REQUEST; an FCGI_GET_VALUES record with contentLength 0 must be answered by an empty
+    FCGI_GET_VALUES_RESULT (repairs d9475fc + 48f6979), records of other types are skipped. Stops at the first
+    GET_VALUES with content (its answer depends on the names), BEGIN_REQUEST, other version or incomplete record.
+    Returns (expected reply classes, number of empty GET_VALUES that are the first record with neither content nor padding
+    history on the connection)."""
     q = 0
+    exp = []
+    virgin = True      # no record with content or padding seen yet: body_ never had storage
+    nvirgin = 0
     while len(data) >= q + 8:
         ver, typ, rid, cl, pl, _ = struct.unpack('>BBHHBB', data[q:q + 8])
-        if len(data) < q + 8 + cl + pl or ver != 1:
-            return False
-        if typ == 9 and cl + pl == 0:
-            return True
-        if cl + pl > 0 or typ in (1, 9):
-            return False
-        q += 8
-    return False
+        if len(data) < q + 8 + cl + pl or ver != 1 or typ == 1:
+            break
+        if typ == 9:
+            if cl != 0:
+                break
+            exp.append('GV')
+            if virgin and pl == 0:
+                nvirgin += 1
+        if cl + pl > 0:
+            virgin = False
+        q += 8 + cl + pl
+    return exp, nvirgin
 
 
 def case_bytes(case):
@@ -278,15 +299,18 @@ def case_bytes(case):
 def oracle(case, out):
     toks = case.split()
     proto = toks[0]
+    data = case_bytes(case)
     if out.startswith('<crash'):
-        data = case_bytes(case)
-        if proto == 'scgi' and scgi_unterminated(data) and 'scgi_api.cpp' in out and 'strlen' in out:
-            return ('scgi-header-block-not-nul-terminated', 'sanitizer: heap over-read in scgi::on_headers_chunk_read: ' + out[:600])
-        if proto == 'fcgi' and fcgi_empty_getvalues_first(data) and 'null pointer' in out:
-            return ('fcgi-empty-get-values-first-record', 'sanitizer: front() of an empty vector in fastcgi parse_pairs: ' + out[:600])
-        if proto == 'http' and has_reset(case) and 'SERVICE-THREW 696e76616c696420656e64706f696e74' in out:
-            return ('http-peer-reset-before-remote-endpoint', 'service::run() threw "invalid endpoint": http::process_request calls '
-                    'remote_endpoint(e).ip() on a connection the peer has reset, before looking at e: ' + out[:300])
+        # regressions of repaired defects get a descriptive key (none of them is a known finding any more)
+        if proto == 'scgi' and scgi_unterminated(data) and 'on_headers_chunk_read' in out and re.search(r'strlen|string_pool::add|READ of size', out):
+            return ('scgi-unterminated-block-over-read', 'REGRESSION of 236058f: sanitizer report in scgi::on_headers_chunk_read for a header block whose '
+                    'last string is not NUL-terminated (must be a protocol violation): ' + out[:900])
+        if proto == 'fcgi' and fcgi_mgmt_prefix(data)[0] and 'null pointer' in out and re.search(r'fastcgi::parse_pairs|fastcgi::async_send_respnse', out):
+            return ('fcgi-empty-get-values-front-of-empty-vector', 'REGRESSION of d9475fc/48f6979: sanitizer report while answering an FCGI_GET_VALUES '
+                    'record without content (front() of an empty vector in parse_pairs / async_send_respnse): ' + out[:900])
+        if proto == 'http' and 'SERVICE-THREW 696e76616c696420656e64706f696e74' in out:
+            return ('http-peer-reset-kills-event-loop', 'REGRESSION of c5271a2: service::run() threw "invalid endpoint": http::process_request used '
+                    'remote_endpoint(e).ip() on a connection the peer has reset before looking at e: ' + out[:300])
         return ('crash-' + proto, 'service process died or sanitizer report: ' + out[:1500])
     r = parse_out(case, out)
     if r['bad'] or r['calls'] is None or len(r['calls']) != 8:
@@ -301,6 +325,17 @@ def oracle(case, out):
         return ('no-answer-no-close-' + proto, 'after the peer closed its sending side the server neither answered nor closed within 4 s')
     if r['closed'] is False:
         return ('connection-not-closed-' + proto, 'server kept the offending connection open 3 s after the peer closed it')
+    # repaired behaviour, demanded on the implementation output alone (input class computed from the bytes sent)
+    if proto == 'scgi' and scgi_unterminated(data) and not has_reset(case):
+        if r['replies'] or any(r['calls'][:7]):
+            return ('scgi-unterminated-block-accepted', 'a SCGI header block whose last string is not NUL-terminated must be refused as a protocol '
+                    'violation (connection closed, no reply, no application callback); got replies %s calls %s' % ([k for k, _ in r['replies']], r['calls']))
+    if proto == 'fcgi' and not has_reset(case) and ' s:' not in case:
+        exp, _ = fcgi_mgmt_prefix(data)
+        got = [k for k, _ in r['replies']][:len(exp)]
+        if got != exp:
+            return ('fcgi-empty-get-values-not-answered', 'every FCGI_GET_VALUES record without content in front of the first request must be answered '
+                    'by an empty FCGI_GET_VALUES_RESULT and the connection must go on; expected the replies to start with %s, got %s' % (exp, [k for k, _ in r['replies']]))
     x = [t for t in toks if t.startswith('X:')]
     nreq = int(x[0][2:]) if x and x[0][2:].isdigit() else None
     classes = [k for k, _ in r['replies']]
@@ -491,12 +526,27 @@ def gen_http(ctx, cases):
         r2 = http_req(b'GET', rng.choice(SCRIPTS), b'HTTP/1.1', ka + many)
         seq = [r1, r2, r1, rng.choice(bads)]
         cases.append('http %s H E X:4' % ' '.join(S(x) for x in seq if x))
-    # known finding: complete header block whose last byte is immediately followed by a reset
-    for rq in (base[0], goods[0], base[2])[:ctx.scale(2, 3)]:
+    # repaired by c5271a2: complete header block whose last byte is immediately followed by a reset (getpeername fails with
+    # ENOTCONN when the RST is processed before http::process_request runs: timing dependent, hence the repetitions)
+    for rep in range(ctx.scale(12, 60)):
+        rq = (base[0], goods[0], base[2], base[1])[rep % 4]
         he = rq.index(b'\r\n\r\n') + 4
-        cases.append('http %s s:%s K X:1' % (S(rq[:he - 1]), hx(rq[he - 1:])))
+        cut = he - 1 if rep % 3 else max(1, he - 1 - rng.randint(1, 20))
+        cases.append('http %s s:%s K X:1' % (S(rq[:cut]), hx(rq[cut:he])))
+    # same window from the synchronised side: a complete request is delivered, the server has read it (S: waits for that) and the
+    # abortive close follows at once; with c5271a2 reverted about 1-3 % of these kill the event loop on a loaded machine
+    for rep in range(ctx.scale(260, 2000)):
+        rq = rng.choice(base + goods)
+        k = rng.random()
+        if k < 0.25:
+            cut = rng.randrange(1, len(rq))
+            cases.append('http %s %s K X:1' % (S(rq[:cut]), S(rq[cut:])))
+        elif k < 0.35:
+            cases.append('http %s K X:2' % S(rq + rng.choice(base)))
+        else:
+            cases.append('http %s K X:1' % S(rq))
     # 6. random mutations of valid requests and random bytes
-    for _ in range(ctx.scale(500, 36000)):
+    for _ in range(ctx.scale(1500, 36000)):
         rq = rng.choice(base + goods)
         d = mutate(rng, rq)
         if rng.random() < 0.2:
@@ -567,12 +617,32 @@ def gen_scgi(ctx, cases):
         cases.append('scgi %s H E X:1' % S(scgi_enc(scgi_items(sn))))
     cases.append('scgi %s H E X:1' % S(scgi_enc([(b'SCGI', b'1'), (b'PATH_INFO', b'/p'), (b'HTTP_PADDING', b'p' * 30)])))
     cases.append('scgi %s H E X:1' % S(scgi_enc([(b'SCRIPT_NAME', b'/up'), (b'SCRIPT_NAME', b'/sync'), (b'CONTENT_LENGTH', b'2'), (b'CONTENT_LENGTH', b'-1')], b'ab')))
-    # known finding: header block that does not end in NUL (heap over-read)
-    kf = [b'40:' + b'A' * 40 + b',', b'40:' + b'A\0' + b'B' * 38 + b',', b'%d:' % (n + 3) + blob + b'KEY' + b',']
-    for d in kf[:ctx.scale(2, 3)]:
+    # repaired by 236058f: header block whose last string is not NUL-terminated (was a heap over-read by strlen; must now be
+    # refused as a protocol violation). Boundary: last byte NUL / not NUL, block of 1 byte, key without value, huge block
+    kf = [b'40:' + b'A' * 40 + b',', b'40:' + b'A\0' + b'B' * 38 + b',', b'%d:' % (n + 3) + blob + b'KEY' + b',', b'%d:' % (n - 1) + blob[:-1] + b',',
+          b'%d:' % (n + 1) + blob + b'X' + b',', b'%d:' % (n + 1) + blob + b'\0' + b',', b'00000000000001:A,', b'00000000000001:\0,', b'000000000000000:,',
+          b'00000000000002:A\0,', b'00000000000002:\0A,', b'14:' + b'\0' * 13 + b'A,', b'14:' + b'\0' * 14 + b',', b'16384:' + b'A' * 16384 + b',',
+          b'16384:' + b'A' * 16383 + b'\0,', b'%d:' % (n + 4) + blob + b'K\0VV' + b',', b'%d:' % n + blob[:-1] + b',' + b',', b'40:' + b'A' * 40 + b',' + b'\0' * 30]
+    for d in kf:
         cases.append('scgi %s H E X:1' % S(d))
+    # buffer_.size() <= 16 ("it can't be so short"): well-formed netstrings of total size 15, 16, 17, 18 with separator at 1 and 2
+    for blk in (b'K\0' + b'V' * 8 + b'\0', b'K\0' + b'V' * 9 + b'\0', b'K\0' + b'V' * 10 + b'\0', b'K\0' + b'V' * 11 + b'\0', b'K\0' + b'V' * 12 + b'\0',
+                b'KEY\0' + b'V' * 4 + b'\0', b'V' * 5 + b'\0' + b'\0', b'V' * 5 + b'\0' + b'A\0' + b'\0' + b'BB\0'):
+        for extra in (b'', b'tail'):
+            cases.append('scgi %s H E X:1' % S(b'%d:' % len(blk) + blk + b',' + extra))
+    for _ in range(ctx.scale(40, 400)):
+        items = scgi_items(rng.choice(SCRIPTS), rng.choice([b'0', b'3']))
+        b2 = b''.join(k + b'\0' + v + b'\0' for k, v in items)
+        k = rng.random()
+        if k < 0.4:
+            b2 = b2[:-1]                                  # final NUL dropped
+        elif k < 0.6:
+            b2 = b2 + bytes(rng.choice(b'AZ/=\x01\xff') for _ in range(rng.randint(1, 5)))   # trailing unterminated key
+        elif k < 0.8:
+            b2 = b2[:-1] + bytes([rng.choice([1, 44, 255, 0, 0])])
+        cases.append('scgi %s H E X:1' % S(b'%d:' % len(b2) + b2 + b',' + b'abc'))
     # mutations / random
-    for _ in range(ctx.scale(350, 24000)):
+    for _ in range(ctx.scale(1000, 24000)):
         d = mutate(rng, rng.choice(base))
         cases.append('scgi %s %s X:1' % (S(d), 'K' if rng.random() < 0.08 else 'H E'))
     for _ in range(ctx.scale(80, 2000)):
@@ -655,10 +725,20 @@ def gen_fcgi(ctx, cases):
         cases.append('fcgi %s H E X:1' % S(fcgi_rec(9, 0, fcgi_pairs(gv[:k])) + fcgi_rec(9, 3, fcgi_pairs(gv[k - 1:]), 5) + freq(b'/up', b'2', b'ok')))
     cases.append('fcgi %s H E X:1' % S(fcgi_rec(9, 0, b'', 4) + freq()))
     cases.append('fcgi %s H E X:1' % S(fcgi_rec(11, 0, b'x') + fcgi_rec(9, 0, b'') + freq()))
-    # known finding: empty GET_VALUES as the first record of a connection
-    cases.append('fcgi %s H E X:1' % S(fcgi_rec(9, 0, b'') + freq()))
-    if ctx.tier != 'quick':
-        cases.append('fcgi %s H E X:1' % S(fcgi_rec(0, 0, b'') + fcgi_rec(9, 0, b'')))
+    # repaired by d9475fc + 48f6979: GET_VALUES without content (front() of an empty vector in parse_pairs and in the reply buffer;
+    # UBSan sees it when body_ never had storage, i.e. no earlier record with content or padding): must be answered by an empty
+    # GET_VALUES_RESULT wherever it stands, and the connection goes on
+    GV0 = fcgi_rec(9, 0, b'')
+    gvs = [GV0 + freq(), GV0, GV0 + GV0 + freq(b'/up', b'2', b'ok'), fcgi_rec(0, 0, b'') + GV0, fcgi_rec(11, 0, b'') + fcgi_rec(5, 9, b'') + GV0 + freq(),
+           fcgi_rec(9, 65535, b'') + freq(), struct.pack('>BBHHBB', 1, 9, 0, 0, 0, 255) + freq(), fcgi_rec(9, 0, b'', 1) + GV0 + freq(),
+           GV0 + fcgi_rec(9, 0, fcgi_pairs(gv[:3])) + GV0 + freq(), freq(flags=1) + GV0 + freq(b'/async'), fbegin(2, 1) + GV0 + freq(),
+           GV0 + fbegin(version=2), GV0 + b'\x01\x09\x00', GV0 * 5, GV0 + fcgi_rec(9, 0, b'\x05') + freq(), GV0 + fcgi_rec(9, 0, b'\x00\x00') + freq()]
+    for d in gvs:
+        cases.append('fcgi %s H E X:2' % S(d))
+    for _ in range(ctx.scale(20, 200)):
+        pre = b''.join(rng.choice([GV0, GV0, fcgi_rec(rng.choice([0, 2, 3, 5, 8, 11, 200]), rng.choice([0, 1]), b''), fcgi_rec(9, 0, b'', rng.choice([0, 3])),
+                                   fcgi_rec(rng.choice([4, 6, 10]), 1, b'', rng.choice([0, 0, 2]))]) for _ in range(rng.randint(1, 5)))
+        cases.append('fcgi %s H E X:2' % S(pre + rng.choice([freq(), freq(b'/up', b'5', b'hello'), b'', fbegin(3), fbegin(version=0)])))
     # declared length vs STDIN stream
     for cl in CL_VALUES:
         if b'\0' in cl:
@@ -700,7 +780,7 @@ def gen_fcgi(ctx, cases):
         r2 = freq(rng.choice(SCRIPTS), flags=1, extra=many)
         cases.append('fcgi %s H E X:4' % S(r1 + r2 + r1 + rng.choice(bads)))
     # mutations / random
-    for _ in range(ctx.scale(500, 36000)):
+    for _ in range(ctx.scale(1500, 36000)):
         d = mutate(rng, rng.choice(base + goods[:2]))
         cases.append('fcgi %s %s X:3' % (S(d), 'K' if rng.random() < 0.08 else 'H E'))
     for _ in range(ctx.scale(80, 2000)):
@@ -730,12 +810,59 @@ def gen_interleaved(ctx, cases):
         cases.append('%s %s P:%s %s P H E X:1' % (proto, S(d[:off]), other, S(d[off:]) if d[off:] else ''))
 
 
+def gen_resegmented(ctx, cases):
+    """all segmentations: the same byte streams cut into 2-5 separately delivered pieces (the server consumes each piece before
+    the next is sent, so every cut is a read boundary: SCGI 16-byte first read / header block / content, FastCGI
+    non_blocking_read_record vs async_read_record and record headers split across reads, HTTP parser state carried over reads).
+    The SCGI/FastCGI model is segmentation independent by construction - this is where that is checked against the code."""
+    rng = ctx.rng
+    pool = {'http': [], 'scgi': [], 'fcgi': []}
+    for c in cases:
+        t = c.split()
+        if len(t) >= 4 and t[1].startswith('S:') and t[2:4] == ['H', 'E'] and 4 <= len(t[1]) - 2 <= 24000:
+            pool[t[0]].append(t)
+    out = []
+    for proto, n in (('http', ctx.scale(500, 6000)), ('scgi', ctx.scale(500, 6000)), ('fcgi', ctx.scale(800, 9000))):
+        if not pool[proto]:
+            continue
+        for _ in range(n):
+            t = rng.choice(pool[proto])
+            d = unhx(t[1][2:])
+            L = len(d)
+            marks = [1, 2, 7, 8, 9, 15, 16, 17, L - 1, L - 2, L - 8, L - 9, L // 2]
+            if proto == 'fcgi':
+                q = 0
+                while q + 8 <= L:     # record boundaries and the byte after each record header
+                    marks += [q, q + 1, q + 8]
+                    q += 8 + d[q + 4] * 256 + d[q + 5] + d[q + 6]
+            elif proto == 'scgi':
+                i = d.find(b':')
+                marks += [i, i + 1, d.find(b',', max(i, 0)), d.find(b',', max(i, 0)) + 1]
+            else:
+                i = d.find(b'\r\n\r\n')
+                marks += [i, i + 1, i + 2, i + 3, i + 4, d.find(b'\r\n') + 1]
+            k = rng.randint(1, 4)
+            cuts = set()
+            for _ in range(k):
+                cuts.add(rng.choice(marks) if rng.random() < 0.6 else rng.randrange(1, L))
+            pts = [0] + sorted(x for x in cuts if 0 < x < L) + [L]
+            if len(pts) < 3:
+                continue
+            segs = [S(d[a:b]) for a, b in zip(pts, pts[1:])]
+            if rng.random() < 0.3:
+                # a well-formed probe on another connection (any protocol) while this connection is half-way
+                segs.insert(rng.randrange(1, len(segs)), rng.choice(['P', 'P:http', 'P:scgi', 'P:fcgi']))
+            out.append(' '.join([proto] + segs + t[2:]))
+    cases += out
+
+
 def gen_cases(ctx):
     cases = []
     gen_http(ctx, cases)
     gen_scgi(ctx, cases)
     gen_fcgi(ctx, cases)
     gen_interleaved(ctx, cases)
+    gen_resegmented(ctx, cases)
     return [' '.join(c.split()) for c in cases]
 
 
@@ -746,6 +873,7 @@ def run_impl_slice(exe, cases, env):
     outs = []
     i = 0
     restarts = 0
+    same_spot = 0
     setup = ['probe %s %s' % (p, hx(b)) for p, b in PROBE.items()]
     while i < len(cases):
         part = cases[i:]
@@ -757,10 +885,19 @@ def run_impl_slice(exe, cases, env):
         lines = so.split('\n')
         if lines and lines[-1] == '':
             lines.pop()
-        lines = lines[len(setup):]
+        # (the service thread may report before the main thread has echoed the set-up lines: filter first, then drop those)
         threw = [l for l in lines if l.startswith('SERVICE-THREW') or l.startswith('HARNESS-EXCEPTION')]
         lines = [l for l in lines if not (l.startswith('SERVICE-THREW') or l.startswith('HARNESS-EXCEPTION'))]
+        lines = lines[len(setup):]
         good = lines[:len(part)]
+        if not good and rc != 0 and same_spot < 2:
+            # the process failed before finishing a single case: possibly a start-up failure of the service (the HTTP port is chosen
+            # by bind(0)/close and can be taken by another process before the service listens on it). Run this slice again; a
+            # crash caused by the first case itself reproduces and is reported after the retries.
+            same_spot += 1
+            time.sleep(0.2 * same_spot)
+            continue
+        same_spot = 0
         outs += good
         i += len(good)
         if len(good) == len(part) and rc == 0:
@@ -818,6 +955,7 @@ def run(ctx):
     ctx.assumptions = [
         'kernel delivers socket bytes in order; a send() of at most 16 KiB on loopback arrives as one readable unit',
         'the server reads a segment before the next one is sent (the harness waits for FIONREAD==0 on the accepted socket)',
+        'an HTTP connection reset by the peer may be closed before any application callback (getpeername fails) or processed as the model says: both accepted',
         'fewer than 33 CGI variables whenever a variable name is duplicated (string_map keeps the first; a rehash may reorder)',
         'FastCGI name-value bodies are shorter than 2^32 bytes (theorem hypothesis; the code caps them at 16384+65535+255)',
         'configuration of the harness service: content_length_limit 2 KB, multipart_form_data_limit 4 KB, input_buffer_size 512']
@@ -839,7 +977,10 @@ def run(ctx):
         '(negative, signed, saturating, limits +-1, junk) x application x content type; request-line/header syntax grid; header blocks around the 16384 '
         'limit with explicit read boundaries; SCGI netstring length field grid (incl. 32-bit wrap), terminators, key/value structure; FastCGI versions, '
         'all record types in every position, roles, flags, request-id mismatches, paddings, PARAMS size boundaries, name-value length encodings, STDIN '
-        'framing; keep-alive / keep_conn sequences ending in a bad request; string-pool page boundaries; random mutations and random bytes. '
+        'framing; keep-alive / keep_conn sequences ending in a bad request; string-pool page boundaries; SCGI header blocks whose last string is not '
+        'NUL-terminated and netstrings of total size 15-18; FastCGI management prefixes with content-less GET_VALUES records; abortive close right after '
+        'a complete HTTP header block / request (timing window of getpeername); re-segmentation of the generated streams into 2-5 separately '
+        'consumed pieces at record / header / block boundaries; random mutations and random bytes. '
         'Non-trivial = the stream is not a well-formed request sequence answered 200 throughout, i.e. at least one error reply, silent close, management '
         'reply or reset occurs; distinct = distinct case lines.')
     os.makedirs(ctx.workdir, exist_ok=True)
@@ -856,6 +997,16 @@ def run(ctx):
         if len(out_m) != len(cases):
             ctx.broke('model driver produced %d lines for %d cases' % (len(out_m), len(cases)), err_m[-2000:])
             out_m = None
+        # the oracle's SCGI input class (Python, from the bytes sent) against the class the theorem scgi_oracle_class_is_rejected is about
+        sc = [c for c in cases if c.startswith('scgi ')]
+        rc_c, out_c, err_c = vlib.run_lines_parallel(mexe, ['scgiclass ' + hx(case_bytes(c)) for c in sc], jobs=4) if sc else (0, [], '')
+        if len(out_c) != len(sc):
+            ctx.broke('model driver: scgiclass produced %d lines for %d cases' % (len(out_c), len(sc)), err_c[-1000:])
+        else:
+            bad = [c for c, o in zip(sc, out_c) if (o.strip() == '1') != scgi_unterminated(case_bytes(c))]
+            ctx.coverage['scgi_oracle_class_members'] = sum(1 for o in out_c if o.strip() == '1')
+            for c in bad[:3]:
+                ctx.broke('oracle input class scgi_unterminated (Python) differs from scgi_unterminated_class (Coq, extracted)', c[:600])
     t2 = time.time()
     cov = ctx.coverage
     cov['evaluations'] = len(cases)
@@ -865,7 +1016,8 @@ def run(ctx):
         ctx.broke('service harness failed outside a case', e)
     hist = cov.setdefault('distribution', {})
     seen = set()
-    ndiff = nskip = ncmp = 0
+    ndiff = nskip = ncmp = nrace = 0
+    nfail = {}
     for i, c in enumerate(cases):
         a = out_i[i]
         if a == '<not-run>':
@@ -874,10 +1026,11 @@ def run(ctx):
         r = oracle(c, a)
         ca = canon_impl(c, a)
         if r:
+            nfail[r[0]] = nfail.get(r[0], 0) + 1
             rep = c
-            if a.startswith('<crash') and i >= njobs:
+            if a.startswith('<crash') and i >= njobs and ('SERVICE-THREW' in a or not re.search(r'Sanitizer|runtime error', a)):
                 # an exception thrown late by the previous connection of the same harness process is blamed on this case:
-                # replay both, in order
+                # replay both, in order (a sanitizer report stops the process at the faulting access: the case alone)
                 rep = cases[i - njobs] + '\n' + c
             ctx.fail(r[0], r[1] + '\n  case: %s\n  impl: %s' % (c[:400], ca[:300]), rep)
         if out_m is not None:
@@ -887,10 +1040,17 @@ def run(ctx):
             elif ' s:' in c or (has_reset(c) and 'OK:' in out_m[i]):
                 nskip += 1   # unsynchronised send / reset racing with request processing (whether a complete request is still
                              # served after the peer reset the connection is timing dependent): oracle only
-            elif 'UNSAFE' in out_m[i] or 'UNMODELLED' in out_m[i]:
+            elif 'UNSAFE' in out_m[i] or 'FUEL' in out_m[i]:
+                # proved impossible (no_input_reaches_unsafe_index, *_total): the extracted model and the theorems disagree
+                ctx.broke('extracted model reports an unsafe index / fuel exhaustion although Props.v proves there is none', 'case: %s\nmodel: %s' % (c[:900], out_m[i]))
+            elif 'UNMODELLED' in out_m[i]:
                 nskip += 1
-                km = 'model:' + ('unsafe' if 'UNSAFE' in out_m[i] else 'unmodelled')
-                hist[km] = hist.get(km, 0) + 1
+                hist['model:unmodelled'] = hist.get('model:unmodelled', 0) + 1
+            elif ca != cm and c.startswith('http ') and has_reset(c) and ca == 'K | calls=0,0,0,0,0,0,0':
+                # the peer's RST was processed between the read of the last header byte and http::process_request: getpeername fails,
+                # remote_endpoint(e) reports it and the connection is closed before any application callback (the path repaired by
+                # c5271a2). Timing dependent, so both outcomes are accepted for a reset case: the model's, or no callback at all.
+                nrace += 1
             else:
                 ncmp += 1
                 if ca != cm:
@@ -904,8 +1064,11 @@ def run(ctx):
             seen.add(hashlib.md5(c.encode()).digest())
     cov['distinct_nontrivial'] = len(seen)
     cov['correspondence_differences'] = ndiff
+    cov['oracle_failures_by_key'] = nfail
+    cov['http_reset_before_process_request_seen'] = nrace
+    cov['reset_after_headers_cases'] = sum(1 for c in cases if c.startswith('http ') and ' s:' in c and has_reset(c))
     cov['correspondence_compared'] = ncmp
-    cov['correspondence_skipped_unsafe_or_unmodelled'] = nskip
+    cov['correspondence_skipped_unmodelled_or_unsynchronised'] = nskip
     step = max(1, len(cases) // 5)
     cov['samples'] = [{'case': cases[i][:300], 'impl': canon_impl(cases[i], out_i[i])[:200], 'model': (out_m[i][:200] if out_m else None)}
                       for i in range(0, len(cases), step)][:6]
